@@ -36,7 +36,7 @@ def required_cells(tier):
     return ["excluded-file-defines-macro-others-test", "excluded-compiled-file", "excluded-header", "out-of-root-header",
             "out-of-root-header-defines-macro", "pattern:path", "pattern:dir", "pattern:ext", "pattern:anchored-dir", "pattern:case-variant", "all-files-excluded",
             "cli:-x-vs-toml", "cli:-x-plus-toml", "cli:tree", "cli:cov", "compiled-file-outside-root",
-            "configuration-via-load_database", "code-base-of-two-directories"]
+            "configuration-via-load_database", "code-base-of-two-directories", "outside-header-included-through-link-in-root"]
 
 
 def attribution(state, case, base):
@@ -129,6 +129,8 @@ def check_case(ctx, git, case, base, cls, do_cli=False):
         cells0.add("out-of-root-header-defines-macro")
     if any(tu["file"].startswith("@out/") for tu in case["tus"]):
         cells0.add("compiled-file-outside-root")
+    if case.get("flinks") and any(attr0.get("@out/ext/olinked.h", {}).values()):
+        cells0.add("outside-header-included-through-link-in-root")
     if case.get("via_db"):
         cells0.add("configuration-via-load_database")
     for pats, pcell in pattern_sets(rng, case, ctx.quick):
@@ -295,7 +297,9 @@ def cli_check(ctx, git, case, base, rng, inroot, attr0):
     else:
         cov = json.load(open(os.path.join(base, "cov.json")))
         listed = {e["file"] for e in cov}
-        if listed != set(members):
+        # a second name (file symlink) of a member inside the root is enumerated too; a link to an outside file is not
+        link_names = {l for l, t in case.get("flinks", {}).items() if t in members}
+        if listed - link_names != set(members) or not (listed & set(case.get("flinks", {})) <= link_names):
             problems.append({"kind": "cbi-cov file list", "expected": sorted(members), "observed": sorted(listed)})
     if problems:
         acc.violated({"input": {"files": case["files"], "tus": case["tus"], "patterns": pats},
@@ -312,7 +316,7 @@ def run_shard(ctx):
     for i in range(b["cases"]):
         small = rng.random() < 0.4
         case = forest.gen(rng, n_tus=rng.randint(1, 2) if small else rng.randint(1, 4), outside=rng.random() < 0.5,
-                          findable=True, subdir=not small, outside_tu=(i % 3 == 1))
+                          findable=True, subdir=not small, outside_tu=(i % 3 == 1), links=(i % 4 == 0))
         case["via_db"] = i % 2 == 1
         for tu in case["tus"]:
             tu["search"] = [["I", d] for _, d in tu["search"]]
